@@ -41,7 +41,7 @@ theorem C09_no_command_for_rejected (cfg : LifeCfg) (s : LifeSt) (kind id : Stri
 
 /-- a client action — whatever kind of faulty TLS client included — never stops the server -/
 def isClientAct : LifeAct → Bool
-  | .start | .stop | .restart | .stopstorm => false
+  | .start | .stop | .restart | .stopstorm | .setpw _ => false
   | _ => true
 
 theorem clientAct_keeps_running (cfg : LifeCfg) (s : LifeSt) (a : LifeAct) (h : isClientAct a = true) :
